@@ -41,6 +41,8 @@ class Validator():
 
     def validate(self, json):
         problems = []
+        if not isinstance(json, dict):
+            problems.append(f'{self.parser.root} is {json} but should be an Object')
         validator = NodeValidator(self.parser)
         validator.validate_node(json, self.parser.root, [self.parser.root], problems)
         return problems
@@ -127,7 +129,7 @@ class NodeValidator():
         #print()
         #print(f"validate_node {node} {path} {roles} {problems}")
 
-        if not node or not isinstance(node, dict):
+        if not isinstance(node, dict):
             return
 
         # May have more roles based on field presence/value etc
@@ -163,6 +165,10 @@ class NodeValidator():
                 # Recurse into grandchildren
                 if isinstance(val, dict):
                     for child_name, child_val in val.items():
+                        if not isinstance(child_val, dict):
+                            problems.append(
+                                f'{path}.{name}.{child_name} is {child_val} but should be an Object'
+                            )
                         self.validate_node(
                             child_val,
                             f"{path}.{name}.{child_name}",
